@@ -192,6 +192,10 @@ class MPS:
             u, s, v = np.linalg.svd(v.reshape((Dleft*d, d**(nsites-i-1))), full_matrices=False)
             # truncate small singular values
             idx = retained_bond_indices(s, tol)
+            if len(idx) == 0:
+                # zero vector: retain a single (vanishing) singular value
+                # to avoid a virtual bond of dimension zero
+                idx = np.array([0])
             u = u[:, idx]
             v = v[idx, :]
             s = s[idx]
